@@ -725,6 +725,7 @@ func (fr *Frame) runCallbackLoop(cv *closureVal, calleeCt *Contract, paramName s
 		a := u.fresh("alloc", SInt)
 		u.assume(True, Ge(a, s.alloc))
 		allocBefore := s.alloc
+		child.cbStart = &allocBefore
 		s.layer = &heapLayer{prevHeaps: s.heaps, prevEpoch: s.epoch, prevLayer: s.layer, allocOld: allocBefore, allocNew: a}
 		s.heaps = map[string]Term{}
 		s.alloc = a
